@@ -94,6 +94,15 @@ def escape : Bytes → Bytes
   | [] => []
   | c :: cs => escapeByte c ++ escape cs
 
+/-- `escaped.replace('\r', "&#13;")` -/
+def replaceCr : Bytes → Bytes
+  | [] => []
+  | c :: cs => (if c = 13 then [38, 35, 49, 51, 59] else [c]) ++ replaceCr cs
+
+/-- `xml/ser.rs::text`: quick-xml's `escape`, then every carriage return as the character reference `&#13;`
+(since commit 7fbc5bc; a literal CR would be read back as LF by any XML reader, finding F-xml-4, fixed) -/
+def escapeText (t : Bytes) : Bytes := replaceCr (escape t)
+
 def hexDigitVal (c : UInt8) : Option Nat :=
   if 48 ≤ c.toNat ∧ c.toNat ≤ 57 then some (c.toNat - 48)
   else if 97 ≤ c.toNat ∧ c.toNat ≤ 102 then some (c.toNat - 87)
@@ -286,10 +295,10 @@ mutual
   /-- `val.serialize_content(s)` at schema `s`. A text event with empty content writes no byte, so it is not
   emitted here (the only difference to the event sequence the Rust code hands to the writer). -/
   def encode : Sch → Val → List Ev
-    | .str, .str b | .enm, .str b => textEv (escape b)
-    | .i32, .int i | .i64, .int i => textEv (escape (fmtInt i))
-    | .bool, .bool b => textEv (escape (fmtBool b))
-    | .ts _, .ts t => textEv (escape t)
+    | .str, .str b | .enm, .str b => textEv (escapeText b)
+    | .i32, .int i | .i64, .int i => textEv (escapeText (fmtInt i))
+    | .bool, .bool b => textEv (escapeText (fmtBool b))
+    | .ts _, .ts t => textEv (escapeText t)
     | .struct fs, .struct vs => encodeFields fs vs
     | .union vs, .union tag v => encodeVariant vs tag v
     | _, _ => []
@@ -444,7 +453,7 @@ def encodeDoc (root : SerRoot) (s : Sch) (v : Val) : List Ev :=
   | .nested outer inner ns => .start outer (nsAttr ns) :: elem inner (encode s v) ++ [.stop outer]
   | .location tag ns =>
     match v with
-    | .struct [.one (.str b)] => .start tag (nsAttr ns) :: textEv (escape b) ++ [.stop tag]
+    | .struct [.one (.str b)] => .start tag (nsAttr ns) :: textEv (escapeText b) ++ [.stop tag]
     | _ => [.start tag (nsAttr ns), .stop tag]
 
 /-- `T::deserialize(&mut d)` followed by `d.expect_eof()` -/
